@@ -177,10 +177,94 @@ let run_store () =
     done
   with End_of_file -> ())
 
+(* ------------------------------------------------------------------------------------------------ fetch (level A) *)
+let z_to_int (z : z) : int = match z with Z0 -> 0 | Zpos p -> int_of_pos p | Zneg p -> - (int_of_pos p)
+let errs = function None -> "-" | Some e -> dec_of_n e
+let cb_line sid (r : cbrec) : string =
+  Printf.sprintf "CB %d %d %s %d %s %s" sid (if r.cb_complete then 1 else 0) (errs r.cb_err) (int_of_nat r.cb_progress)
+    (match r.cb_err, r.cb_max with None, Some m -> string_of_int (int_of_nat m) | _ -> "-")
+    (match r.cb_chunk with None -> "none" | Some b -> field_of_bytes b)
+let st_line (c : client) : string =
+  let pend = String.concat ";" (List.map (fun (xid, x) ->
+      Printf.sprintf "%d:%s:%d" (int_of_nat xid) (string_of_name x.x_name) (match x.x_kind with MetaI -> 1 | SegI _ -> 0)) c.c_pending) in
+  let ss = String.concat " " (List.map (fun (s : stream) ->
+      Printf.sprintf "%d,%d,%d,%s,%d,%s,[%s],%s" (int_of_nat s.s_w0) (int_of_nat s.s_w1) (int_of_nat s.s_w2)
+        (match s.s_err, s.s_segcnt with Some _, _ -> "x" | None, None -> "-1" | None, Some n -> string_of_int (int_of_nat n))
+        (if s.s_complete then 1 else 0) (errs s.s_err)
+        (String.concat "" (List.map (function Some _ -> "1" | None -> "0") s.s_content))
+        (string_of_name s.s_fetch)) c.c_streams) in
+  Printf.sprintf "ST q=%d,%d,%d,%d f=%s/%d/%d p=%s s=%s" (List.length c.c_outpipe) (List.length c.c_seginpipe)
+    (List.length c.c_segfetch) (int_of_nat c.c_segcheck)
+    (String.concat "." (List.map (fun i -> string_of_int (int_of_nat i)) c.f_streams)) (int_of_nat c.f_rr) (z_to_int c.f_out)
+    pend ss
+
+let parse_result (fields : string list) : result option =
+  match fields with
+  | ["data"; nm; content; fb; meta] ->
+      Some (RData (name_of_string nm, bytes_of_field content, (if fb = "none" then None else Some (comp_of_string fb)),
+                   (if meta = "none" then None else Some (name_of_string meta))))
+  | ["timeout"] -> Some RTimeout | ["nack"] -> Some RNack | ["error"] -> Some RError | ["other"] -> Some ROther
+  | _ -> None
+
+let run_fetch () =
+  let c = ref cl_init and evno = ref 0 and impl_cbs = ref [] and last_ev = ref "" and stop = ref false in
+  let logs_len = ref [] in    (* per stream: number of callback records already printed *)
+  let new_cb_lines () =
+    let lines = ref [] in
+    let lens = ref [] in
+    List.iteri (fun sid (s : stream) ->
+        let seen = (try List.nth !logs_len sid with _ -> 0) in
+        let l = s.s_log in
+        List.iteri (fun i r -> if i >= seen then lines := cb_line sid r :: !lines) l;
+        lens := List.length l :: !lens) !c.c_streams;
+    logs_len := List.rev !lens;
+    List.rev !lines in
+  let apply ev = c := step !c ev in
+  (try
+    while true do
+      let line = input_line stdin in
+      match String.split_on_char ' ' line with
+      | ["FETCH"] -> incr ncases; c := cl_init; evno := 0; impl_cbs := []; logs_len := []; stop := false
+      | _ when !stop && line <> "END" -> ()
+      | "EV" :: rest ->
+          incr evno; last_ev := line; impl_cbs := [];
+          (match rest with
+           | ["consume"; nm; pol] -> apply (EvConsume (name_of_string nm, (if pol = "every" then PolEvery else PolAtEnd)))
+           | ["run"; "out"] -> apply EvRunOut
+           | ["run"; "segin"] -> apply EvRunSegIn
+           | ["run"; "fetch"] -> apply EvRunFetch
+           | ["run"; "check"] -> apply EvRunCheck
+           | "result" :: xid :: r ->
+               (match parse_result r with
+                | Some res -> apply (EvResult (nat_of_int (int_of_string xid), res))
+                | None -> print_endline ("BADLINE " ^ short line))
+           | _ -> print_endline ("BADLINE " ^ short line))
+      | "CB" :: _ -> impl_cbs := line :: !impl_cbs
+      | "ST" :: _ ->
+          let mcbs = List.sort compare (new_cb_lines ()) and icbs = List.sort compare !impl_cbs in
+          if mcbs <> icbs then begin
+            diverge "fetch-callback" (Printf.sprintf "event %d (%s): model=[%s] impl=[%s]" !evno (short !last_ev)
+              (short (String.concat " ; " mcbs)) (short (String.concat " ; " icbs))); stop := true end;
+          let m = st_line !c in
+          if m <> line && not !stop then begin
+            diverge "fetch-state" (Printf.sprintf "event %d (%s): model=%s impl=%s" !evno (short !last_ev) (short m) (short line));
+            stop := true end;
+          if List.exists (fun (s : stream) -> s.s_panic) !c.c_streams && not !stop then begin
+            diverge "fetch-panic" (Printf.sprintf "event %d: the model reached an unchecked index" !evno); stop := true end
+      | "HANG" :: what ->
+          oracle ("fetch:hang:" ^ String.concat "_" what)
+            (Printf.sprintf "event %d (%s): the client's goroutine never returned from %s" !evno (short !last_ev) (String.concat " " what))
+      | ["END"] -> ()
+      | [""] | [] -> ()
+      | _ -> print_endline ("BADLINE " ^ short line)
+    done
+  with End_of_file -> ())
+
 let () =
   let mode = if Array.length Sys.argv > 1 then Sys.argv.(1) else "produce" in
   (match mode with
    | "produce" -> run_produce ()
    | "store" -> run_store ()
+   | "fetch" -> run_fetch ()
    | _ -> print_endline ("BADLINE unknown mode " ^ mode));
   Printf.printf "DONE %d\n" !ncases
